@@ -370,6 +370,10 @@ func recoverSign(ctx context.Context, signc chan *vss.Signature, suite suites.Su
 	errc := make(chan error)
 	go func() {
 		var signShares [][]byte
+		// The first share through is this node's own: dispatchSign forwards it
+		// before it registers for the peers' shares. Peers must have signed the
+		// same content for the same request type.
+		var own *vss.Signature
 		defer close(out)
 		defer close(errc)
 
@@ -388,6 +392,14 @@ func recoverSign(ctx context.Context, signc chan *vss.Signature, suite suites.Su
 
 				if sign == nil || sign.Signature == nil || sign.Content == nil {
 					err := errors.New("Detected nil pointer and skipped")
+					logger.Error(err)
+					errc <- err
+					continue
+				}
+				if own == nil {
+					own = sign
+				} else if sign.Index != own.Index || !bytes.Equal(sign.Content, own.Content) {
+					err := errors.New("share for another content or request type skipped")
 					logger.Error(err)
 					errc <- err
 					continue
